@@ -12,9 +12,14 @@ import (
 
 // outcome of one parse under a given map-order schedule
 func verifParseOutcome(src string, site int) (string, int) {
+	var cfg *ParserConfig
+	if len(src) > 9 && src[:9] == "#natives\n" {
+		// programs that call Go functions next to AWK functions (native and AWK functions are numbered separately)
+		cfg = &ParserConfig{Funcs: map[string]interface{}{"na": verifNatA, "nb": verifNatB, "nc": verifNatC, "g": verifNatB}}
+	}
 	verifMapOrderSite(site)
 	verifMapOrderNondet(true)
-	prog, err := ParseProgram([]byte(src), nil)
+	prog, err := ParseProgram([]byte(src), cfg)
 	verifMapOrderNondet(false)
 	n := verifRangeCount()
 	if err != nil {
@@ -26,6 +31,10 @@ func verifParseOutcome(src string, site int) (string, int) {
 	}
 	return prog.String() + "\n" + buf.String(), n
 }
+
+func verifNatA(x int) int       { return x + 1 }
+func verifNatB(x int) int       { return x + 2 }
+func verifNatC(s string) string { return s + "c" }
 
 var verifC19Programs = []string{
 	// several independent type errors in uncalled functions
@@ -45,6 +54,9 @@ var verifC19Programs = []string{
 	"BEGIN { a = 1; b = 2; c[1] = 3; d = a b; e[a] = b; print d, e[a] } END { print NR, f, g[1] }",
 	"function h(p, q) { return p + q[1] } function k(r) { return h(1, r) } BEGIN { k(arr); print h(2, arr) }",
 	"function f(n) { return n <= 0 ? 0 : g(n - 1) } function g(n) { return f(n) + 1 } { s += f($1) } END { print s }",
+	// Go functions next to AWK functions (an AWK function g shadows the Go function of that name)
+	"#natives\nfunction f(x) { return na(x) + nb(x) } function g(y) { return f(y) nc(y) } BEGIN { print g(1), nb(2), na(3) }",
+	"#natives\nfunction zz(x) { return nc(x) } function aa(y) { return zz(y) } function mm(z) { return aa(z) na(z) } BEGIN { print mm(1), nb(2) }",
 }
 
 func verifC19Check(pi int) {
@@ -67,3 +79,4 @@ func verifC19Check(pi int) {
 
 func VerifC19Errors()   { verifC19Check(verifIntRange(0, 7)) }
 func VerifC19Accepted() { verifC19Check(verifIntRange(8, 8+verifBound(1, 3))) }
+func VerifC19Natives()  { verifC19Check(verifIntRange(12, 13)) }
